@@ -313,10 +313,11 @@ const (
 	vRecvCapture        // Codec whose Unmarshal records payload type and bytes
 	vRecvRead           // Conn.Read
 	vRecvJSON           // JSON.Receive
+	vRecvMixed          // per message: Conn.Read of exactly the message, or Codec.Receive
 )
 
 var vSendNames = []string{"Message.Send", "Conn.Write", "JSON.Send"}
-var vRecvNames = []string{"Message.Receive", "Codec.Receive", "Conn.Read", "JSON.Receive"}
+var vRecvNames = []string{"Message.Receive", "Codec.Receive", "Conn.Read", "JSON.Receive", "Conn.Read/Codec.Receive mixed"}
 
 type vJSONMsg struct {
 	Msg   string
@@ -493,6 +494,9 @@ func vGenDir(rng *rand.Rand, name string, thorough bool, nmsg int) *vDir {
 	default:
 		d.sendAPI = rng.IntN(2)
 		d.recvAPI = rng.IntN(3)
+		if rng.IntN(4) == 0 {
+			d.recvAPI = vRecvMixed
+		}
 	}
 	for i := 0; i < nmsg; i++ {
 		for rng.IntN(4) == 0 {
@@ -592,8 +596,11 @@ func vGenLimitDir(rng *rand.Rand, name string) *vDir {
 func vGenRawDir(rng *rand.Rand, name string, masked bool, thorough bool) *vDir {
 	d := &vDir{name: name, raw: true, readSeed: rng.Uint64()}
 	d.recvAPI = vRecvCapture
-	if rng.IntN(3) == 0 {
+	switch rng.IntN(4) {
+	case 0:
 		d.recvAPI = vRecvRead
+	case 1:
+		d.recvAPI = vRecvMixed
 	}
 	nmsg := 1 + rng.IntN(6)
 	for i := 0; i < nmsg; i++ {
@@ -848,7 +855,19 @@ func (s *vSession) send(ws *Conn, d *vDir, who string) {
 // recvOne receives one frame's worth through the direction's codec API and returns what
 // the application got: payload type as far as the API exposes it (0 if it does not).
 func (s *vSession) recvOne(ws *Conn, d *vDir, it *vItem, want []byte, rng *rand.Rand) (typ byte, data []byte, jv *vJSONMsg, err error) {
-	switch d.recvAPI {
+	api := d.recvAPI
+	if api == vRecvMixed {
+		// Conn.Read only for a whole, non-empty, unfragmented message that fits (it consumes a
+		// frame only when it needs bytes, and has no notion of a refused message)
+		api = vRecvCapture
+		if it.frags == nil && len(want) > 0 && !it.oversize && rng.IntN(2) == 0 {
+			api = vRecvRead
+			s.r.Event("mixed_receiver_messages_taken_with_conn_read", 1)
+		} else {
+			s.r.Event("mixed_receiver_messages_taken_with_codec_receive", 1)
+		}
+	}
+	switch api {
 	case vRecvTyped:
 		if it.typ == TextFrame {
 			var str string
@@ -989,7 +1008,7 @@ func (s *vSession) recv(ws *Conn, d *vDir, who string) {
 				if !bytes.Equal(data, want) {
 					s.violation("payload-mismatch"+suffix, "%s %s item %d part %d via %s: got %s want %s; first difference at byte %d", who, d.name, i, pi, api, vShort(data), vShort(want), vFirstDiff(data, want))
 				}
-				if d.recvAPI == vRecvCapture && typ != it.typ {
+				if (d.recvAPI == vRecvCapture || d.recvAPI == vRecvMixed && typ != 0) && typ != it.typ {
 					s.violation("payload-type-mismatch", "%s %s item %d part %d: Codec.Receive saw payload type %d, sent %d", who, d.name, i, pi, typ, it.typ)
 				}
 			}
